@@ -4,27 +4,21 @@ properties that concern the files it touches, record who reports it and how. Nev
 modified. Writes seeded/MATRIX.json."""
 import json, os, re, subprocess, sys
 V = "/verif"
-BY_FILE = {
-    "src/mutex.rs": ["C01", "C05", "C10", "C13", "C14", "C15", "C16", "C17"],
-    "src/semaphore.rs": ["C03", "C07", "C10", "C14", "C15", "C17"],
-    "src/rwlock": ["C02", "C06", "C10", "C11", "C12", "C14", "C15", "C16", "C17"],
-    "src/once_cell.rs": ["C04", "C08", "C16", "C17"],
-    "src/barrier.rs": ["C09", "C17"],
-}
+# besides the seed's own property: the checks most likely to see the same change
+EXTRA = {"C01": ["C05"], "C02": ["C06"], "C03": ["C07"], "C04": ["C08"], "C05": ["C10"], "C06": ["C12"],
+         "C07": ["C10"], "C08": ["C04"], "C09": [], "C10": ["C05", "C06"], "C11": ["C02"], "C12": ["C06"],
+         "C13": ["C05"], "C14": ["C01"], "C15": ["C10"], "C16": [], "C17": ["C06", "C07"]}
 only = sys.argv[1:]
 res = {}
 out_path = os.path.join(V, "seeded", "MATRIX.json")
-if os.path.exists(out_path):
+if os.path.exists(out_path) and only:
     res = json.load(open(out_path))
 for sid in sorted(os.listdir(os.path.join(V, "seeded"))):
     patch = os.path.join(V, "seeded", sid, "patch.diff")
     if not os.path.exists(patch) or (only and sid not in only):
         continue
-    text = open(patch).read()
-    props = [sid.split("-")[0]]
-    for k, ps in BY_FILE.items():
-        if k in text:
-            props += [p for p in ps if p not in props]
+    own = sid.split("-")[0]
+    props = [own] + EXTRA.get(own, [])
     r = subprocess.run([os.path.join(V, "tools", "seedrun.sh"), sid] + props, capture_output=True, text=True)
     row = {}
     for line in r.stdout.splitlines():
